@@ -156,6 +156,19 @@ bool judge(const std::vector<uint32_t> &tape, Case &c)
     if (!gShrinking) {
         account(c);
     }
+    for (const auto &f : c.alsoFailed) {
+        int k2 = knownFindingIndex(property.id, f.first);
+        if (k2 >= 0) {
+            if (!gShrinking) {
+                ++gStats.knownHits[k2];
+                if (gStats.knownExample[k2].empty()) {
+                    gStats.knownExample[k2] = f.first + " :: " + f.second;
+                }
+            }
+        } else if (c.ok) {
+            c.fail(f.first, f.second);
+        }
+    }
     if (c.ok) {
         return true;
     }
@@ -273,6 +286,13 @@ int main(int argc, char **argv)
                 return 20;
             }
             runCase(tape, c);
+        }
+        for (const auto &f : c.alsoFailed) {
+            if (knownFindingIndex(property.id, f.first) >= 0) {
+                std::cout << "REPLAY-ALSO-FAILED sig=" << f.first << " (known finding)\n";
+            } else if (c.ok) {
+                c.fail(f.first, f.second);
+            }
         }
         std::cout << "# case\n"
                   << clip(c.text, 20000) << "\n";
